@@ -1007,6 +1007,19 @@ def install_builtins(interp):
             return slice(*args)
         if tok is I.TYPE_OBJECT:
             return I.Opaque("object()")
+        if tok is I.TYPE_NDARRAY:
+            # np.ndarray(shape, dtype=..., buffer=buf): uninitialised array, or a C-ordered view on the leading part of buf
+            shape = interp.np._shape(args[0] if args else kwargs["shape"])
+            buf = kwargs.get("buffer")
+            if buf is None:
+                return interp.np.empty(shape, kwargs.get("dtype"))
+            n = int(np.prod(shape)) if shape else 1
+            flat = buf.reshape(-1)
+            if flat.size < n:
+                raise I.PyRaise(I.mk_exc("TypeError", "buffer is too small for requested array"))
+            if not np.shares_memory(flat, buf):
+                raise I.Unsupported("np.ndarray(buffer=non-contiguous array)")
+            return flat[:n].reshape(shape)
         raise I.Unsupported("constructor %s" % tok.name)
     b["__construct__"] = construct
 
